@@ -327,7 +327,8 @@ namespace Malt.Dedent
 /-- **Text-level dedent theorem.**  Let `code` be any source text and `as` the oracle's token stream for
 `unfold code`, annotated with the gaps (so that `unfold code = renderA as`).  If the stream is well formed
 (`wf`: it starts with the INDENT announcing the non-empty block indentation `p`; gaps are blanks; tokens other
-than string literals are single-line; the stream is balanced) and obeys the tokenizer's indentation discipline
+than string literals and the literal parts of f-strings are single-line; no gap follows an f-string literal part;
+the stream is balanced and ends with ENDMARKER) and obeys the tokenizer's indentation discipline
 (`startsOk`), then `dedent_block`
 * succeeds, and its result is the SAME tokens with other gaps (`renderA as'`, `as'.map tok = as.map tok`):
   no token — in particular no string literal, including its interior lines — is altered;
@@ -345,7 +346,7 @@ theorem C15_dedent_text (p : Str) (as : List ATok) (code : Str)
     rw [hcode]
     exact dedentCore_wf p as hwf
   · obtain ⟨hpne, h0⟩ := wf_wfGo0 p as hwf
-    have := mainSpec p hpne as 0 true true [] h0 hstarts rfl (by simp)
+    have := mainSpec p hpne as 0 true false true [] h0 hstarts rfl (by simp)
     simpa [dedentSpec, adjust] using this
 
 /-- A block that is not indented (the first token that is not NL/NEWLINE/STRING/COMMENT is no INDENT) is
@@ -431,5 +432,31 @@ example : String.ofList (renderA exAtoks) =
     "    def f():\n        x = [1,\n  2]\n        s = \"\"\"a\n b\"\"\"\n    # c\n\n        return x\n" := by decide
 example : String.ofList (renderA (adjust "    ".toList exAtoks)) =
     "def f():\n    x = [1,\n  2]\n    s = \"\"\"a\n b\"\"\"\n    # c\n\n    return x\n" := by decide
+
+/-- non-vacuity with an f-string (3.12 token stream): a triple-quoted f-string with an escaped brace, an
+under-indented replacement field and a whitespace-only last line:
+```
+    def f(a):
+        s = f"""x{{
+  {a}
+ """
+        return s
+```
+-/
+private def exFstr : List ATok := [
+  ⟨[], tk' .INDENT "    "⟩, ⟨"    ".toList, tk' .NAME "def"⟩, ⟨[' '], tk' .NAME "f"⟩, ⟨[], tk' .OP "("⟩, ⟨[], tk' .NAME "a"⟩,
+  ⟨[], tk' .OP ")"⟩, ⟨[], tk' .OP ":"⟩, ⟨[], tk' .NEWLINE "\n"⟩,
+  ⟨[], tk' .INDENT "        "⟩, ⟨"        ".toList, tk' .NAME "s"⟩, ⟨[' '], tk' .OP "="⟩,
+  ⟨[' '], tk' .FSTRING_START "f\"\"\""⟩, ⟨[], tk' .FSTRING_MIDDLE "x{"⟩, ⟨[], tk' .FSTRING_MIDDLE "\n  "⟩,
+  ⟨[], tk' .OP "{"⟩, ⟨[], tk' .NAME "a"⟩, ⟨[], tk' .OP "}"⟩, ⟨[], tk' .FSTRING_MIDDLE "\n "⟩,
+  ⟨[], tk' .FSTRING_END "\"\"\""⟩, ⟨[], tk' .NEWLINE "\n"⟩,
+  ⟨"        ".toList, tk' .NAME "return"⟩, ⟨[' '], tk' .NAME "s"⟩, ⟨[], tk' .NEWLINE "\n"⟩,
+  ⟨[], tk' .DEDENT ""⟩, ⟨[], tk' .DEDENT ""⟩, ⟨[], tk' .ENDMARKER ""⟩]
+
+example : wf "    ".toList exFstr = true ∧ startsOk "    ".toList exFstr = true := by decide
+example : String.ofList (renderA exFstr) =
+    "    def f(a):\n        s = f\"\"\"x{{\n  {a}\n \"\"\"\n        return s\n" := by decide
+example : String.ofList (renderA (adjust "    ".toList exFstr)) =
+    "def f(a):\n    s = f\"\"\"x{{\n  {a}\n \"\"\"\n    return s\n" := by decide
 
 end Malt.Dedent
